@@ -278,6 +278,62 @@ func c18Units(tier string, seed int64) []Unit {
 		}
 	}})
 
+	// (i-d) floats: interior values - every integer k and k+0.5 inside ranges whose bounds have fractions
+	type fr2 struct{ lo, hi float64 }
+	interior := []fr2{{10.75, 20}, {8.5, 15.25}, {-20, -2.5}, {2.25, 3.5}, {0.3, 7.9}, {-6.75, 9.125}}
+	if !quick {
+		interior = append(interior, fr2{-100, -2.5}, fr2{33.3, 70.1})
+	}
+	for _, r := range interior {
+		for _, w := range []int{64, 32} {
+			r, w := r, w
+			units = append(units, Unit{Name: fmt.Sprintf("C18/reach-float-interior/Float%dRange(%g,%g)", w, r.lo, r.hi), Run: func(c *Ctx) {
+				var draw func(t *rapid.T) string
+				if w == 64 {
+					g := rapid.Float64Range(r.lo, r.hi)
+					draw = func(t *rapid.T) string { return fmt.Sprint(g.Draw(t, "f")) }
+				} else {
+					g := rapid.Float32Range(float32(r.lo), float32(r.hi))
+					draw = func(t *rapid.T) string { return fmt.Sprint(g.Draw(t, "f")) }
+				}
+				// a witness needs up to five non-base answers: exponent (bias + bits), integer part of the
+				// significand, the "keep low bits" draw and the fraction
+				small := 4
+				if r.hi > 32 || r.lo < -32 {
+					small = 6 // integer part of the significand has up to 6 bits: all of them are needed as answers
+				}
+				alpha := LevelAlpha(AlphaAll(small, AlphaQuarter))
+				set := reachSet(c, draw, 9, 5, alpha)
+				if set["<incomplete>"] {
+					return
+				}
+				var missing []string
+				for k := math.Ceil(r.lo); k <= r.hi; k++ {
+					for _, v := range []float64{k, k + 0.5} {
+						if v < r.lo || v > r.hi {
+							continue
+						}
+						if v == 0 {
+							if !set["0"] && !set["-0"] {
+								missing = append(missing, "0")
+							}
+							continue
+						}
+						if !set[fmt.Sprint(v)] {
+							missing = append(missing, fmt.Sprint(v))
+						}
+					}
+				}
+				c.Outcome(fmt.Sprintf("Float%d[%g,%g] reached %d", w, r.lo, r.hi, len(set)), true)
+				if len(missing) > 0 {
+					c.Violate(Violation{Sig: fmt.Sprintf("C18 unreachable-float-interior width=%d range=[%g,%g]", w, r.lo, r.hi),
+						Detail: fmt.Sprintf("Float%dRange(%g,%g): %d interior values (integers and halves) are produced by no answer sequence within the bounds, e.g. %v (%d distinct values reached)", w, r.lo, r.hi, len(missing), missing[:min(len(missing), 10)], len(set)),
+						Replay: map[string]any{"width": w, "lo": r.lo, "hi": r.hi, "missing": missing[:min(len(missing), 20)]}})
+				}
+			}})
+		}
+	}
+
 	// (ii) edges within a few thousand draws: Example(seed), seed < 4096
 	type er struct {
 		name   string
@@ -421,6 +477,15 @@ func c18Units(tier string, seed int64) []Unit {
 		dup := map[uint64]int{}
 		for _, s := range seeds {
 			dup[s]++
+		}
+		wide := false
+		for _, s := range seeds {
+			if s >= 1<<40 {
+				wide = true
+			}
+		}
+		if !wide && len(seeds) == 8 {
+			c.Violate(Violation{Sig: "C18 unseeded-seeds-confined-to-a-small-range", Detail: fmt.Sprintf("all 8 unseeded first-case seeds are below 2^40: %v - base seeds are not drawn from the 64-bit space (chance for a uniform 64-bit source: 2^-192)", seeds), Replay: map[string]any{"seeds": seeds}})
 		}
 		if len(dup) != len(seeds) || len(seeds) != 8 {
 			c.Violate(Violation{Sig: "C18 unseeded-runs-repeat-a-seed", Detail: fmt.Sprintf("8 unseeded Check calls (4 in this process, 2 in each of 2 other processes, clock frozen) used first-case seeds %v", seeds), Replay: map[string]any{"seeds": seeds}})
